@@ -1,7 +1,8 @@
 /* C18 driver: logical threads grow / query one shared wasmMemory through the REAL
  * wasmMemoryGrow of w2c2_base.h (compiled through sched_shim.h).
  * argv[1]: scripts, threads separated by '|', ops by ';':  G:delta   Z (memory.size)  L:addr (i32 load)
- *          W:value (store value into the LAST page of the size seen now)   R:page (load from that page if it is inside the size seen now) */
+ *          W:value (store value into the LAST page of the size seen now)   R:page (load from that page if it is inside the size seen now)
+ *          N:addr (memory.atomic.notify, count 1) */
 #include <stdio.h>
 #include <stdlib.h>
 #include <string.h>
@@ -42,6 +43,10 @@ static void* worker(void* arg) {
                 r = i32_load(mem, (U64)page * 65536 + 16);
                 sh_api("ret", "load", page, 0, 0, r);
             }
+        } else if (op[0] == 'N') {
+            /* memory.atomic.notify on the same memory (nobody waits): it takes the memory's mutex, the one grow holds */
+            sscanf(op, "N:%lld", &a);
+            (void)wasmMemoryAtomicNotify(mem, (U32)a, 1);
         } else if (op[0] == 'L') {
             sscanf(op, "L:%lld", &a);
             sh_point("load");
